@@ -192,6 +192,7 @@ type Cell struct {
 	Owner   string      // "" = this set; "none" = orphan; "otheruid"; "otherkind"; "noncontroller"
 	NoMatch bool        // labels do not match the selector
 	NoIdent bool        // the pod-name label is missing (identity must be repaired by an update)
+	OldSvc  bool        // hostname/subdomain stem from an earlier incarnation with another governing service
 }
 
 func (c Cell) String() string {
@@ -218,6 +219,9 @@ func (c Cell) String() string {
 	}
 	if c.NoIdent {
 		s += "/noident"
+	}
+	if c.OldSvc {
+		s += "/oldsvc"
 	}
 	return s
 }
@@ -278,6 +282,9 @@ func BuildPod(set *asv1.StatefulSet, ord int, c Cell, revName string, tmpl int, 
 	}
 	p.Spec.Hostname = name
 	p.Spec.Subdomain = set.Spec.ServiceName
+	if c.OldSvc {
+		p.Spec.Subdomain = "old-svc"
+	}
 	p.Spec.NodeName = "node"
 	var vols []v1.Volume
 	for _, ct := range set.Spec.VolumeClaimTemplates {
